@@ -17,7 +17,7 @@ func init() {
 			"D2 detector.Run ranges over all detectors, invokes Scan once per iteration, tags every returned finding with that detector's Name(), appends all of them, and appends a status built from that call's error on every path; " +
 			"D3 Run returns findings only when validateAdvisories returned nil and returns no findings with the error otherwise; validateAdvisories fails for a nil advisory, a nil ID, and for a DeepEqual-different advisory under an equal ID, with the ID map keyed by the ID *value*; Scan appends the findings it got; " +
 			"D4 packageindex.New skips a package only when its extractor yields no package URL, stores the package under [url.Type][url.Name] of that URL; GetSpecific looks up [type][name] in that order. " +
-			"Added in round 3: the decisions that keep a package out of the index are the audited ones (frozen table). NOT decided: index contents as a set for arbitrary inventories (values).",
+			"Added in round 3: the decisions that keep a package out of the index are the audited ones (frozen table). Added in round 7: D4 additionally: packageindex.New stores the unfiltered parameter list (or a copy) in no field. NOT decided: index contents as a set for arbitrary inventories (values).",
 		Run: runC20,
 		Controls: []Mutant{
 			{Name: "index-before-standalone", File: "scalibr.go", Old: "	sro.Inventory.Append(standaloneInv)\n	sro.ExtractorStatus = append(sro.ExtractorStatus, standaloneStatus...)\n\n	px, err := packageindex.New(sro.Inventory.Packages)\n	if err != nil {\n		sro.Err = err\n		sro.EndTime = time.Now()\n		return newScanResult(sro)\n	}\n", New: "	px, err := packageindex.New(sro.Inventory.Packages)\n	if err != nil {\n		sro.Err = err\n		sro.EndTime = time.Now()\n		return newScanResult(sro)\n	}\n	sro.Inventory.Append(standaloneInv)\n	sro.ExtractorStatus = append(sro.ExtractorStatus, standaloneStatus...)\n", Rule: "D1-index", Site: "after-standalone"},
@@ -58,6 +58,7 @@ func runC20(p *Prog, r *Report) {
 	for _, fn := range p.FuncsIn("packageindex") {
 		checkBounds(p, r, "D5-intact", fn, nil)
 	}
+	indexKeepsOnlyFiltered(p, r, "D4-index-key")
 }
 
 func c20Scan(p *Prog, r *Report) {
